@@ -29,6 +29,9 @@ SUBMISSIONS = {
     "greetB": {"answer.py": "import phrases\n\nclass Greeter:\n    def greet(self):\n        return phrases.GREETING\n\ndef make_greeter():\n    return Greeter()\n\nprint('greeting is', phrases.GREETING)\n",
                "phrases.py": "GREETING = 'Howdy!'\n"},
     "realmut": "import math\nmath.pi = 3\nprint(math.pi)\n",
+    # pedal's own stand-in for the turtle module: what it hands out must not be the table it works from
+    "turtleclear": "import turtle\nturtle.__all__.clear()\nprint('cleared')\n",
+    "turtlestar": "from turtle import *\nforward(10)\nprint('moved')\n",
     "mathy": "import math\narea = math.pi * 2 ** 2 + 1\nprint(area)\n",
     # attribute assignments on values of builtin types: TIFA records them in the value's method table
     "attrassign": "def add(a, b):\n    return a + b\nname = ' ada '.strip()\nname.upper = 'ADA'\nnums = [1].copy()\nnums.append = 3\nprint('hello')\nprint(add(1, 1))\n",
